@@ -4,6 +4,7 @@ package c19
 
 import (
 	"bytes"
+	"context"
 	"errors"
 	"fmt"
 	"io"
@@ -488,4 +489,140 @@ func TestBufferDifferential(t *testing.T) {
 // native fuzzer (thorough tier only).
 func FuzzBufferDifferential(f *testing.F) {
 	f.Fuzz(rapid.MakeFuzz(func(t *rapid.T) { checkSequence(t, "FuzzBufferDifferential") }))
+}
+
+// ---------- the encoder as it is handed to user marshallers, inside real records ----------
+
+// opMarshaller is a user value whose marshaller drives the encoder it is handed.
+type opMarshaller struct{ run func(enc *slog.PrintCtx) }
+
+func (m opMarshaller) MarshalSlogObject(enc *slog.PrintCtx) error { m.run(enc); return nil }
+
+// TestInsideMarshallers: records with 1-3 marshaller attributes are printed by a real logger (pooled
+// contexts, all formats, several records in a row). Inside every marshaller call the reference is a fresh
+// bytes.Buffer holding exactly what the encoder holds at that moment - whatever the library itself wrote
+// since the previous marshaller call counts as a Write - and a generated operation sequence is applied to
+// both in lock-step.
+func TestInsideMarshallers(t *testing.T) {
+	rapid.Check(t, func(t *rapid.T) {
+		defer vlib.Canon()()
+		format := rapid.SampledFrom([]string{"json", "logfmt", "color"}).Draw(t, "format")
+		lg := slog.New("c19m").SetWriter(io.Discard).SetErrorWriter(io.Discard).SetLevel(slog.AlwaysLevel)
+		switch format {
+		case "json":
+			lg.SetJSONMode(true)
+		case "logfmt":
+			lg.SetColorMode(false)
+		}
+		nested := slog.New("c19nested").SetWriter(io.Discard).SetErrorWriter(io.Discard).SetLevel(slog.AlwaysLevel)
+		if format == "color" {
+			nested.SetJSONMode(true)
+		}
+		var failure string
+		var desc []string
+		endsWithRead, unreadFirst := false, false
+		nrec := rapid.IntRange(1, 3).Draw(t, "records")
+		for r := 0; r < nrec; r++ {
+			nm := rapid.IntRange(1, 3).Draw(t, "marshallers")
+			args := []any{"plain", r}
+			for m := 0; m < nm; m++ {
+				ops := rapid.SliceOfN(genOp(), 0, 6).Draw(t, "ops")
+				if rapid.IntRange(0, 2).Draw(t, "startWithUnread") == 0 {
+					k := rapid.SampledFrom([]string{"UnreadByte", "UnreadRune"}).Draw(t, "unread")
+					ops = append([]op{{Kind: k}}, ops...)
+				}
+				if rapid.IntRange(0, 3).Draw(t, "logsInside") == 0 && len(ops) > 0 {
+					// the marshaller itself logs (another record is formatted while this encoder is in use), after a
+					// write that makes the encoder grow
+					at := rapid.IntRange(0, len(ops)).Draw(t, "logsInsideAt")
+					big := op{Kind: "Write", Data: bytes.Repeat([]byte("grow "), rapid.SampledFrom([]int{10, 300, 700}).Draw(t, "growBy"))}
+					ops = append(ops[:at:at], append([]op{big, {Kind: "nested-log"}}, ops[at:]...)...)
+				}
+				if rapid.IntRange(0, 2).Draw(t, "endWithRead") == 0 {
+					k := rapid.SampledFrom([]string{"ReadByte", "ReadRune"}).Draw(t, "read")
+					ops = append(ops, op{Kind: k})
+				}
+				for i := range ops {
+					// a scripted reader delivers min(N, len(p)) bytes and len(p) depends on the capacity, which the
+					// reference cannot share here: stay below bytes.MinRead so that nothing is clipped on either side
+					if ops[i].Kind == "ReadFrom" {
+						sc := append([]chunk(nil), ops[i].Script...)
+						for j := range sc {
+							if sc[j].N > 400 {
+								sc[j].N = 400
+							}
+						}
+						ops[i].Script = sc
+					}
+				}
+				tag := fmt.Sprintf("record %d marshaller %d", r, m)
+				args = append(args, fmt.Sprintf("m%d", m), opMarshaller{run: func(enc *slog.PrintCtx) {
+					if failure != "" {
+						return
+					}
+					// the reference mirrors the encoder's layout (length, capacity, read offset): bytes.Buffer's own
+					// behaviour depends on them (Grow slides or reallocates, after which UnreadByte restores nothing)
+					total, capacity := enc.Cap()-enc.Available(), enc.Cap()
+					off := total - enc.Len()
+					raw := make([]byte, total, capacity)
+					copy(raw[off:], enc.Bytes())
+					ref := bytes.NewBuffer(raw)
+					ref.Next(off)
+					_, _ = ref.Write(nil) // forget that Next was a read: whatever the library wrote last was a write
+					if len(ops) > 0 && (ops[0].Kind == "UnreadByte" || ops[0].Kind == "UnreadRune") && endsWithRead {
+						unreadFirst = true
+					}
+					for i, o := range ops {
+						desc = append(desc, o.Kind)
+						if o.Kind == "nested-log" {
+							nested.Warn(strings.Repeat("a record printed while a marshaller runs ", 40), "k", strings.Repeat("v", 1500))
+						}
+						got, want := apply(enc, o), apply(ref, o)
+						where := fmt.Sprintf("%s step %d %v (format=%s)", tag, i, o, format)
+						switch {
+						case got.Panicked != want.Panicked:
+							failure = fmt.Sprintf("%s: PrintCtx panicked=%v (%v), bytes.Buffer panicked=%v (%v)", where, got.Panicked, got.PanicVal, want.Panicked, want.PanicVal)
+						case got.Panicked:
+							if panicClass(got.PanicVal) != panicClass(want.PanicVal) {
+								failure = fmt.Sprintf("%s: panic value class differs: %v vs %v", where, got.PanicVal, want.PanicVal)
+							}
+						case !sameInts(got.Ints, want.Ints):
+							failure = fmt.Sprintf("%s: results differ: PrintCtx %v, bytes.Buffer %v", where, got.Ints, want.Ints)
+						case !bytes.Equal(got.Bytes, want.Bytes):
+							failure = fmt.Sprintf("%s: returned data differ: PrintCtx %q, bytes.Buffer %q", where, got.Bytes, want.Bytes)
+						case errClass(got.Err) != errClass(want.Err):
+							failure = fmt.Sprintf("%s: errors differ: PrintCtx %v, bytes.Buffer %v", where, got.Err, want.Err)
+						case enc.Len() != ref.Len():
+							failure = fmt.Sprintf("%s: Len() afterwards: PrintCtx %d, bytes.Buffer %d", where, enc.Len(), ref.Len())
+						case enc.String() != ref.String():
+							failure = fmt.Sprintf("%s: contents afterwards differ: PrintCtx %q, bytes.Buffer %q", where, enc.String(), ref.String())
+						}
+						if failure != "" {
+							return
+						}
+					}
+					endsWithRead = len(ops) > 0 && readKinds[ops[len(ops)-1].Kind] && ops[len(ops)-1].Kind != "UnreadByte" && ops[len(ops)-1].Kind != "UnreadRune"
+				}}, fmt.Sprintf("between%d", m), "text")
+			}
+			func() {
+				defer func() {
+					if p := recover(); p != nil && failure == "" {
+						failure = fmt.Sprintf("record %d: the log call panicked: %v", r, p)
+					}
+				}()
+				lg.LogAttrs(context.Background(), slog.InfoLevel, "marshaller record", args...)
+			}()
+			if failure != "" {
+				t.Fatalf("C19 inside a marshaller: %s; operations so far %v", failure, desc)
+			}
+		}
+		key := ""
+		if unreadFirst {
+			key = format + ":" + strings.Join(desc, ",")
+		}
+		vlib.Case("TestInsideMarshallers", key, "format="+format, fmt.Sprintf("unread-after-library-write=%v", unreadFirst))
+		if key != "" && vlib.WantSample("TestInsideMarshallers") {
+			vlib.Sample("TestInsideMarshallers", map[string]any{"format": format, "records": nrec, "ops": desc})
+		}
+	})
 }
